@@ -44,6 +44,7 @@ class Runtime:
         self.monitors: list = []
         self.violations: list[tuple[str, Any]] = []
         self.labels: dict[str, tuple] = {}
+        self.run_values: dict[str, Any] = {}
         self._ordinals: dict[tuple, int] = {}
         self._inv: dict[tuple, int] = {}
         self._ginv: dict[str, int] = {}
@@ -90,6 +91,7 @@ class Runtime:
         label = parent + ((base[0], base[1], n),)
         tok = _LABEL.set(label)
         lid = self.label_id(label)
+        self.run_values[lid] = values
         self.log("run_begin", r=lid, g=graph_name, depth=len(label))
         return tok
 
@@ -165,6 +167,9 @@ class Runtime:
         if f is None:
             return
         exc = InjectedFault(f.get("fid", 0), rec["n"])
+        exc.args_seen = dict(rec["a"])
+        exc.label = self.labels.get(rec["r"], ())
+        exc.run_values = self.run_values.get(rec["r"])
         self.raised.setdefault(exc.fid, []).append(exc)
         self.fired.append({"fid": exc.fid, "key": rec["key"], "when": when})
         self.log("raise", n=rec["n"], r=rec["r"], i=rec["i"], key=rec["key"], fid=exc.fid, c=rec["c"])
@@ -229,7 +234,7 @@ class Runtime:
         self._track_enter(rec)
         try:
             self._maybe_raise(rec, "before")
-            await self._wait(rec["key"])
+            await self._wait(rec["key"], rec["a"])
             self._maybe_raise(rec, "after")
             val = self._value(node, args)
         except BaseException as e:
@@ -297,8 +302,16 @@ class Runtime:
         choices = self.schedule.get("choices") or [0]
         return choices[mix("delay", self.schedule.get("seed", 0), key) % len(choices)]
 
-    async def _wait(self, key: str) -> None:
+    async def _wait(self, key: str, args: dict | None = None) -> None:
         mode = self.schedule.get("mode", "delay")
+        ad = self.schedule.get("arg_delay")
+        if ad and args is not None and mode != "hold":
+            # delay decided by the value of one argument (e.g. the mapped item): adversarial item orders
+            v = args.get(ad["param"])
+            d = ad["table"].get(str(v))
+            if d is not None:
+                await asyncio.sleep(d)
+                return
         if mode == "hold":
             fut = asyncio.get_event_loop().create_future()
             self.parked.append((key, fut))
